@@ -10,6 +10,7 @@ import (
 	"verifsim/engines/e4store"
 	"verifsim/engines/e5schema"
 	"verifsim/engines/e6resource"
+	"verifsim/engines/e7conc"
 )
 
 func main() {
@@ -29,6 +30,7 @@ func main() {
 	reg(e4store.Engine{}, "C19", "C09")
 	reg(e5schema.Engine{}, "C14", "C15", "C16")
 	reg(e6resource.Engine{}, "C17", "C18")
+	reg(e7conc.Engine{}, "C12")
 
 	core.Main(engines, propEngine)
 }
